@@ -52,6 +52,10 @@ def make_base(src_bsp: str, dst: str) -> None:
     b.lumps[B.BSP_LUMPS.PAKFILE].data = b''
     with contextlib.redirect_stdout(io.StringIO()):
         b.save(dst)
+    # the file just written is the base of every generated world: it must be readable, view by view
+    b2 = B.BSP(dst)
+    for v in VIEWS:
+        getattr(b2, v)
 
 
 def apply_config(b: Any, cfg: str) -> None:
@@ -844,24 +848,23 @@ def roundtrip(base: str, workdir: str, g: Gen, only: list[str] | None = None) ->
     w = g.build()
     path = os.path.join(workdir, 'case.bsp')
     shutil.copy(base, path)
-    b = B.BSP(path)
-    apply_config(b, g.cfg)
     ver = B.StaticPropVersion[g.prop_ver]
-    b.static_prop_version = ver
-    b.game_lumps[b'sprp'].version = ver.version
-    b.out_comma_sep = w['out_comma_sep']
     expect = canon_views(w, lambda n: w[n], g.vit, ver)
     limit = IMPL_TIME_LIMIT_BIG if 'big_runs' in g.feats else IMPL_TIME_LIMIT
-    order = ['ents'] + [v for v in VIEWS if v != 'ents']
-    for v in order:
-        if only is not None and v not in only:
-            continue
-        if v == 'bmodels' and w[v] is None:
-            continue
-        setattr(b, v, w[v])
     res: dict[str, str] = {}
     try:
         with contextlib.redirect_stdout(io.StringIO()), time_limit(limit):
+            b = B.BSP(path)
+            apply_config(b, g.cfg)
+            b.static_prop_version = ver
+            b.game_lumps[b'sprp'].version = ver.version
+            b.out_comma_sep = w['out_comma_sep']
+            for v in ['ents'] + [v for v in VIEWS if v != 'ents']:
+                if only is not None and v not in only:
+                    continue
+                if v == 'bmodels' and w[v] is None:
+                    continue
+                setattr(b, v, w[v])
             b.save(path)
     except (Exception, ImplTimeout) as e:      # noqa: BLE001 - any exception on a well-formed value is a finding
         res['!save'] = f'{type(e).__name__}: {e}'[:300]
